@@ -415,6 +415,28 @@ Proof.
   - exact (same_rows_zero_pivot K n msk s0 Hwf r1 r2 H Hnz).
 Qed.
 
+(* ------------------------------------------------------------------ the upper-triangular variant: no exit *)
+Lemma gj_run_ut_nan_aware dense (s0 : st (A:=K)) :
+  wf_st K n s0 -> upper_tri_S K S (sa s0) -> diag_nonzero_S K S (sa s0) -> upper_tri_S K S (sx s0) ->
+  exists s', gj_run N dense true n msk s0 = Ok s' /\ gj_run O dense true n msk (lst K s0) = Ok (lst K s').
+Proof.
+  intros Hwf HU HD HXU.
+  assert (HidS : forall r, In r S -> pget (seq 0 n) r = r).
+  { intros r Hr. apply inS in Hr. unfold pget. apply seq_nth. tauto. }
+  assert (HB : BInv K n msk (seq 0 n) (fun i => i) s0 n s0).
+  { split; [|split; [|split; [|split]]].
+    - split; [exact Hwf|]. split; [apply imp_refl|]. split; [split; auto|auto].
+    - intros r k Hr Hk Hkr. rewrite HidS by auto. apply HXU; auto.
+    - intros r c Hr Hc _ Hcr. rewrite HidS by auto. apply HU; auto.
+    - intros c Hc _. rewrite HidS by auto. apply HD; auto.
+    - intros r c Hr Hc Hnc. destruct (proj1 (inS n msk _) Hc). lia. }
+  assert (Hmono : forall j i : nat, In j S -> In i S -> j < i -> (fun i => i) j <= (fun i => i) i) by (intros; lia).
+  destruct (back_correct K n msk (seq 0 n) (pfix_id n msk) (fun i => i) Hmono s0 s0 HB) as (s2 & E2 & _).
+  exists s2. unfold gj_run, gj_ut_core. rewrite E2. split; [reflexivity|].
+  unfold back. rewrite (back_lift_fold K isz isz_spec n msk (seq 0 n) (pfix_id n msk) (fun i => i) Hmono s0 n s0); auto.
+  unfold back in E2. rewrite E2. reflexivity.
+Qed.
+
 (* ------------------------------------------------------------------ matrixInverse.Run on the NaN-aware carrier *)
 Lemma ident_lm : ident O n = lm K (ident N n).
 Proof.
